@@ -83,8 +83,11 @@ func (u *UseCase) UpdateTx(ctx context.Context, oldTxId, newTxId string, filter 
 	}
 
 	err = u.fileRepo.RunTransaction(ctx, func(ctx context.Context) error {
+		// One sequence for the whole commit: a snapshot (which is a sequence
+		// drawn without any lock) must see all of the commit's keys or none.
+		commitSeq := sequence.Next()
 		for i := range files {
-			files[i].Seq = sequence.Next()
+			files[i].Seq = commitSeq
 			vhook.AtSeq("core.updatetx.seq", uint64(files[i].Seq))
 			err = u.fileRepo.Set(ctx, files[i])
 			if err != nil {
